@@ -176,8 +176,8 @@ def jobs(tier):
             else:
                 for c in OPS:
                     heavy = [a, b, c].count("enqueue")
-                    out.append(Job("queue-history", h_history, dict(first=[a, b, c], depth=depth), cost=2 + 10 * heavy,
-                                   shards=(1, 2, 6, 16)[heavy]))
+                    out.append(Job("queue-history", h_history, dict(first=[a, b, c], depth=(depth if heavy < 3 else depth - 1)),
+                                   cost=2 + 10 * heavy, shards=(1, 2, 8, 8)[heavy]))
     return out
 
 
@@ -186,7 +186,7 @@ META = {
                         "fragmentation toggle}; every enqueued frame has symbolic from/to (0..0xFFF), id (0..0xFFFF), type "
                         "(0..255 except 148-150), reserved and 0 or 2 symbolic message bytes; one frame object (with a bytearray message that is scribbled over after every enqueue) reused; plus 8-10 "
                         "frames under max_queue_size 7..10 moved through two fragmentation toggles",
-               "thorough": "all 5^6 histories of length 6"},
+               "thorough": "all 5^6 histories of length 6 (length 5 after three leading enqueues)"},
     "outside": ["fragment types 148-150 in the history obligation (C06; one dedicated obligation checks that a reassembled message waiting in the queue is a private copy)", "field values outside the wire range (the statement's 'fields they had when "
                 "enqueued')", "histories longer than 6", "max_queue_size > 10 or negative",
                 "eviction when max_queue_size is lowered below the current length (not required by the statement as read here: "
